@@ -79,13 +79,13 @@ JOBS.append(dict(name='c02_batch_next_int32', wip=False, est_s=30, timeout=600, 
 JOBS.append(dict(name='c02_batch_rows_int32', wip=False, est_s=300, timeout=900, mem_gb=12, defines=['CQV_TYPE=1', 'CQV_NP_MAX=2', 'CQV_NL_MAX=2', 'CQV_NP_EXACT=1'],
                  checks=['--bounds-check'],   # memory safety of the column body: c02_batch_next_int32
                  bound='exactly 2 projected columns of 2 INT32 file columns, row group open; rows unbounded',
-                 note='FINDING: zero-copy path (mmap, REQUIRED column, page smaller than the batch) delivers page_num_values rows '
+                 note='failed before /repo 2881a0c: zero-copy path (mmap, REQUIRED column, page smaller than the batch) delivered page_num_values rows '
                       'while the other columns deliver rows_to_read -> columns of one batch differ in length (native: /tmp/colreader/demo_zc)',
                  **BRJ, **BR))
 # C19: the same one-column job with every allocation allowed to fail (cbmc 6 default) + leak check
 BR19 = dict(BR)
 BR19['prop'] = 'C19'
-JOBS.append(dict(name='c19_batch_next_int32', wip=True, est_s=60, timeout=600,
+JOBS.append(dict(name='c19_batch_next_int32', wip=False, est_s=20, timeout=600,
                  defines=['CQV_TYPE=1', 'CQV_NP_MAX=1', 'CQV_NL_MAX=1', 'CQV_C19=1'],
                  bound='1 projected OPTIONAL INT32 column, row group open, batch_size <= 8; every malloc/calloc made by '
                        'batch_reader.c may fail independently (wrapper), all other allocations succeed',
